@@ -133,11 +133,14 @@ const (
 	OpAddStrayPod      // somebody creates a pod named S-0<a> (a leading-zero spelling of ordinal a) carrying the set's labels
 	OpClaimRemove      // somebody deletes claim a outright (no pod uses it, or nobody cares): it is gone from the API
 	OpPauseSeen        // the user pauses the set and the set informer delivers that at once (used as mid-reconcile interference)
+	OpStatusRestored   // the status is overwritten from elsewhere (helper.Upgrade copies the built-in set's status verbatim, a backup is restored): observedGeneration runs ahead of metadata.generation, counters as in a/b
+	OpPodSwapped       // pod a loses its pod-name label (the pod cache sees that), then is deleted and replaced - API only, the cache lags - by a same-named pod that another controller owns
+	OpClaimLost        // the volume behind claim a is gone: the claim's status.phase becomes Lost (it stays the ordinal's claim)
 	numOpKinds
 )
 
 var opNames = [...]string{"reconcile", "kubelet", "refreshAll", "refreshPod", "refreshSet", "editReplicas", "slotAdd", "slotRemove",
-	"editTemplate", "editPartition", "editMeta", "userDeletePod", "settle", "scaleInAt", "pause", "markDeleting", "restart", "editLimit", "editStrategy", "setRecreate", "setRemove", "addOrphanPod", "orphanPod", "claimTerminating", "editSlotsRaw", "relabelPod", "addStrayPod", "claimRemove", "pauseSeen"}
+	"editTemplate", "editPartition", "editMeta", "userDeletePod", "settle", "scaleInAt", "pause", "markDeleting", "restart", "editLimit", "editStrategy", "setRecreate", "setRemove", "addOrphanPod", "orphanPod", "claimTerminating", "editSlotsRaw", "relabelPod", "addStrayPod", "claimRemove", "pauseSeen", "statusRestored", "podSwapped", "claimLost"}
 
 // Fault kinds for a reconcile op
 const (
@@ -488,6 +491,8 @@ type Sys struct {
 	Trace []func() string
 	// OnRecord is invoked after every reconcile (monitors)
 	OnRecord func(r *sim.Record, op *Op)
+	// statusRestored: the history overwrote the status from elsewhere (observedGeneration may stay ahead)
+	statusRestored bool
 	// queueBurst: how many queued reconciles one closing round may run (0 = 64)
 	queueBurst int
 	// RemovedClaims: claims the user (not the controller) deleted during the history
@@ -915,6 +920,33 @@ func (s *Sys) envOp(k, a, b int) {
 			x.Annotations[helper.DeleteSlotsAnn] = val
 		})
 		s.logf("user: delete-slots=%s (not a list of int32: no slots)", val)
+	case OpPodSwapped:
+		if p := s.pickPod(a); p != nil && p.DeletionTimestamp == nil {
+			delete(p.Labels, "statefulset.kubernetes.io/pod-name")
+			c.Put(p)
+			c.RefreshPod(NS, p.Name, s.W != nil && s.W.EventMode)
+			c.Remove(sim.GVRPods, NS, p.Name)
+			n := p.DeepCopy()
+			n.UID, n.ResourceVersion = "", ""
+			yes := true
+			n.OwnerReferences = []metav1.OwnerReference{{APIVersion: "apps/v1", Kind: "ReplicaSet", Name: "squatter", UID: "squatter-uid", Controller: &yes, BlockOwnerDeletion: &yes}}
+			c.Put(n)
+			s.logf("pod %s lost its pod-name label, was deleted and replaced by a pod of ReplicaSet squatter (the pod cache still holds the old one)", p.Name)
+		}
+	case OpStatusRestored:
+		if st := c.Set(NS, s.Name); st != nil {
+			st.Status.ObservedGeneration = st.Generation + 1 + int64(abs(a)%5)
+			switch abs(b) % 3 {
+			case 1: // the counters of the other object
+				st.Status.Replicas, st.Status.ReadyReplicas = int32(abs(a)%4), int32(abs(a)%4)
+				st.Status.CurrentReplicas, st.Status.UpdatedReplicas = int32(abs(a)%4), int32(abs(a)%4)
+			case 2: // an empty status
+				st.Status = asv1.StatefulSetStatus{ObservedGeneration: st.Status.ObservedGeneration}
+			}
+			c.Put(st)
+			s.statusRestored = true
+			s.logf("status overwritten from elsewhere: observedGeneration=%d (generation %d) replicas=%d", st.Status.ObservedGeneration, st.Generation, st.Status.Replicas)
+		}
 	case OpPauseSeen:
 		c.UpdateSet(NS, s.Name, func(x *asv1.StatefulSet) { helper.SetPausedReconcile(x, true) })
 		c.RefreshSet(NS, s.Name, s.W != nil && s.W.EventMode)
@@ -939,6 +971,13 @@ func (s *Sys) envOp(k, a, b int) {
 				c.Put(pvc)
 				s.logf("user: claim %s deleted (terminating, held by its finalizer)", pvc.Name)
 			}
+		}
+	case OpClaimLost:
+		if claims := c.PVCs(); len(claims) > 0 {
+			pvc := claims[abs(a)%len(claims)]
+			pvc.Status.Phase = corev1.ClaimLost
+			c.Put(pvc)
+			s.logf("claim %s lost its volume (phase Lost)", pvc.Name)
 		}
 	case OpOrphanPod:
 		if p := s.pickPod(a); p != nil && len(p.OwnerReferences) > 0 {
